@@ -301,9 +301,19 @@ def do_step(lens, slots, st):
                 if args is None:
                     return {'skipped': 'no arguments'}
                 before = {k: _snap_arg(v) for k, v in args.items()}
+                if st.get('wis'):
+                    # one wavelength per ray, in the caller's own array
+                    wl = np.array([wl_of(lens, i) for i in st['wis']],
+                                  dtype=float)
+                    n = max(np.size(v) for v in args.values())
+                    wl = np.resize(wl, n)
+                    args = dict(args, W=wl)
+                    before['W'] = _snap_arg(wl)
+                else:
+                    wl = wl_of(lens, st['wi'])
                 try:
                     r = lens.trace_generic(args['Hx'], args['Hy'], args['Px'],
-                                           args['Py'], wl_of(lens, st['wi']))
+                                           args['Py'], wl)
                 finally:
                     for k, v in args.items():
                         if _snap_arg(v) != before[k]:
@@ -398,7 +408,10 @@ def gen_client(ch, kind, meta):
         steps.append({'c': 'mk', 'slot': 'a',
                       'args': _pupil_arrays(ch, ch.randint(1, 6))})
         for _ in range(ch.randint(1, 4)):
-            steps.append({'c': 'tg', 'slot': 'a', 'wi': ch.randint(0, 2)})
+            st = {'c': 'tg', 'slot': 'a', 'wi': ch.randint(0, 2)}
+            if ch.chance(0.25):
+                st['wis'] = [ch.randint(0, 2) for _ in range(6)]
+            steps.append(st)
     elif kind == 'paraxial':
         for _ in range(ch.randint(2, 6)):
             if ch.chance(0.2):
@@ -434,8 +447,17 @@ def gen_client(ch, kind, meta):
             kw = {'type': ch.pick(['f-tan', 'f-theta']),
                   'n': ch.randint(2, 5)}
         steps.append({'c': 'new', 'cls': cls, 'slot': 'o', 'kw': kw})
-        for name in ch.shuffle(METHODS.get(cls, []))[:ch.randint(0, 3)]:
+        meths = ch.shuffle(METHODS.get(cls, []))[:ch.randint(0, 3)]
+        for name in meths:
             steps.append({'c': 'method', 'slot': 'o', 'name': name})
+        if meths and ch.chance(0.6):
+            # the same query again on the same object, after the others:
+            # "the same analysis call repeated returns identical results"
+            first = next(s_ for s_ in steps if s_['c'] == 'method')
+            first['rep'] = 'm0'
+            first['ret_only'] = True
+            steps.append({'c': 'method', 'slot': 'o', 'name': first['name'],
+                          'rep': 'm0', 'ret_only': True})
     elif kind == 'operand':
         for _ in range(ch.randint(1, 4)):
             t = ch.pick(['f2', 'EPL', 'XPL', 'magnification', 'seidel',
@@ -496,6 +518,12 @@ def gen_client(ch, kind, meta):
                  {'c': 'tg', 'slot': 'S', 'wi': wi, 'batch': 'S'},
                  {'c': 'tg', 'slot': 'ST', 'wi': wi, 'batch': 'ST',
                   'idx': idx}]
+        if ch.chance(0.35):
+            # rays of different wavelengths in one call
+            wS = [ch.randint(0, 2) for _ in range(n1)]
+            wT = [ch.randint(0, 2) for _ in range(n2)]
+            steps[2]['wis'] = wS
+            steps[3]['wis'] = [(wS if w == 'S' else wT)[i] for w, i in order]
         if ch.chance(0.5):
             steps[2], steps[3] = steps[3], steps[2]
     elif kind == 'faulty':
@@ -642,7 +670,11 @@ def execute(prop, hist):
                     continue
                 if st['rep'] in first:
                     stats['oracle_checks'] += 1
-                    ok, where = same(obs, first[st['rep']])
+                    a_, b_ = obs, first[st['rep']]
+                    if st.get('ret_only'):
+                        a_ = {k_: v_ for k_, v_ in a_.items() if k_ != 'obj'}
+                        b_ = {k_: v_ for k_, v_ in b_.items() if k_ != 'obj'}
+                    ok, where = same(a_, b_)
                     if not ok:
                         raise Violation(
                             'not-repeatable',
